@@ -49,6 +49,12 @@ SDLS = [
     'enum E { A }\ninterface I { e(a: E = A): E }\ntype T implements I { e(a: E = A, b: Int @deprecated(reason: "x")): E }\ntype Query { i: I t: T }',
 ]
 
+# string defaults whose printed form is delicate (leading tab / space, trailing quote or backslash, more than 70 characters, inner line break)
+# as block and as quoted literals: defaultValue is printed by the library and re-parsed by build_client_schema
+for _lit in ['"""\ta"\n"""', '""" a"\n"""', '"""\ta\\\n"""', '"""\t' + "x" * 75 + '"""', '""" ' + "x" * 75 + '"""', '"""a\n  b\n c"""', '"""\ta\n\tb"""',
+             '"\\ta\\""', '"\\t' + "x" * 75 + '"', '" a\\\\"', '"a\\nb"', '"\\u0007\\u2028"']:
+    SDLS.append("input I { s: String = %s }\ndirective @d(s: String = %s) on FIELD\ntype Query { f(a: String = %s, i: I): Int }" % (_lit, _lit, _lit))
+
 
 def programmatic_schemas():
     from graphql import (GraphQLArgument, GraphQLDirective, GraphQLEnumType, GraphQLEnumValue, GraphQLField, GraphQLFloat, GraphQLID,
@@ -66,6 +72,36 @@ def programmatic_schemas():
                                         "old": GraphQLInputField(GraphQLInt, deprecation_reason="")})
     q2 = GraphQLObjectType("Query", lambda: {"g": GraphQLField(GraphQLList(GraphQLNonNull(e)), args={"i": GraphQLArgument(inp, default_value={"x": 1})})})
     out.append(("prog_defaults_by_value", GraphQLSchema(q2, types=[inp])))
+    # value-based defaults of input-object type that leave out fields which have their own defaults (non-null and nullable),
+    # at every place a default can stand
+    from graphql import GraphQLString
+    from graphql.type import GraphQLDefaultInput as DI
+
+    flt = GraphQLInputObjectType("Filter", lambda: {
+        "limit": GraphQLInputField(GraphQLNonNull(GraphQLInt), default=DI(value=10)),
+        "tag": GraphQLInputField(GraphQLString),
+        "opt": GraphQLInputField(GraphQLInt, default=DI(value=1)),
+        "sub": GraphQLInputField(flt),
+    })
+    outer = GraphQLInputObjectType("Outer", {
+        "f": GraphQLInputField(flt, default=DI(value={"tag": "o"})),
+        "fs": GraphQLInputField(GraphQLList(GraphQLNonNull(flt)), default=DI(value=[{"tag": "a"}, {"limit": 2, "sub": {"opt": 3}}])),
+    })
+    dd = GraphQLDirective("flt", [DirectiveLocation.FIELD], {"f": GraphQLArgument(flt, default=DI(value={"tag": "d"}))})
+    q3 = GraphQLObjectType("Query", {"g": GraphQLField(GraphQLInt, args={"f": GraphQLArgument(flt, default=DI(value={"tag": "x"})),
+                                                                         "fs": GraphQLArgument(GraphQLList(flt), default=DI(value=[{}, None, {"opt": None}])),
+                                                                         "o": GraphQLArgument(outer, default=DI(value={}))})})
+    from graphql import specified_directives
+
+    out.append(("prog_partial_object_defaults", GraphQLSchema(q3, types=[flt, outer], directives=[*specified_directives, dd])))
+    # ID defaults given as values through both default APIs: integer-looking, almost integer-looking, and plain strings
+    ids = ["12", "12\n", "012", "-0", "-12", " 12", "1e3", "", "a"]
+    args = {}
+    for i, v in enumerate(ids):
+        args[f"legacy{i}"] = GraphQLArgument(GraphQLID, default_value=v)
+        args[f"new{i}"] = GraphQLArgument(GraphQLID, default=DI(value=v))
+    args["lst"] = GraphQLArgument(GraphQLList(GraphQLID), default_value=["1", "1\n", 2])
+    out.append(("prog_id_defaults", GraphQLSchema(GraphQLObjectType("Query", {"h": GraphQLField(GraphQLInt, args=args)}))))
     extra = GraphQLObjectType("Extra", {"x": GraphQLField(GraphQLInt)})
     out.append(("prog_extra_types", GraphQLSchema(GraphQLObjectType("Query", {"a": GraphQLField(GraphQLInt)}), types=[extra], description="desc")))
     return out
